@@ -124,6 +124,9 @@ func (w *world) execOp(ti, oi int, op *proto.Op, st *opState) {
 		st.res.OutHash = hashBytes([]byte(s))
 		st.res.OutLen = len(s)
 		st.res.Info = infoString(info)
+		// keep the very value the caller was handed: a later call must not alter it
+		st.infoVal = info
+		st.infoHash = fp.Hash(info)
 		if w.sc.Dump {
 			st.res.Dump = []byte(s)
 		}
